@@ -65,6 +65,28 @@ var vpReadOps = []vpReadOp{
 		}
 		return []byte(y.GetLink())
 	}},
+	{"text-marshalers", func(x Item) []byte {
+		// the text forms of the language values and their parts (entries whose text has spare capacity:
+		// a writer that adopts the text's own slice as its buffer writes into memory it shares)
+		var out []byte
+		_ = OnObject(x, func(o *Object) error {
+			for _, n := range []NaturalLanguageValues{o.Name, o.Summary, o.Content} {
+				for _, e := range n {
+					b, _ := e.MarshalText()
+					out = append(out, b...)
+					b, _ = e.MarshalJSON()
+					out = append(out, b...)
+					out = append(out, e.Ref.String()...)
+					out = append(out, e.Value.String()...)
+				}
+				b, _ := n.MarshalText()
+				out = append(out, b...)
+				out = append(out, n.String()...)
+			}
+			return nil
+		})
+		return out
+	}},
 	{"NaturalLanguageValues", func(x Item) []byte {
 		var out []byte
 		_ = OnObject(x, func(o *Object) error {
@@ -84,6 +106,13 @@ func vpC12Frozen(ti int) {
 	_ = OnObject(x, func(o *Object) error {
 		o.Name = NaturalLanguageValues{{Ref: NilLangRef, Value: Content{'a', '"', vpByte(), '\\', 'n'}}}
 		o.ID = vpMkIRI('i')
+		return nil
+	})
+	// a tagged text that is a window into a larger buffer (capacity beyond its length)
+	_ = OnObject(x, func(o *Object) error {
+		buf := make([]byte, 5, 32)
+		copy(buf, "hello")
+		o.Content = NaturalLanguageValues{{Ref: "en", Value: Content(buf)}, {Ref: "fr", Value: Content("salut")}}
 		return nil
 	})
 	// language values with entries the encoders skip (empty text, repeated tag) followed by kept ones
